@@ -75,6 +75,14 @@ func genTier(a hx.Args, rng *hx.Rng, res *hx.Result, cc *hx.Cases, corpus [][]by
 		}
 		return have[n]
 	}
+	// every Decoder implementation of the node must be one of the decode targets below
+	exercised := map[string]bool{"eth_tx.Transaction": true}
+	for _, d := range ext.Decoders {
+		if !exercised[d] {
+			res.Violate("C08/gen:decoder-not-exercised", "the node has a DecodeRLP implementation the harness does not decode into: "+d, d)
+		}
+	}
+	res.Note("DecodeRLP implementations in the node: " + strings.Join(ext.Decoders, ", "))
 	// reflection vs go/types on the one exported generated struct
 	if need("account.Account") {
 		cc.Add("CGenReflect \"account.Account\" "+coqGty(reflect.TypeOf(account.Account{})), map[string]string{"kind": "reflect descriptor of account.Account vs generated"})
@@ -163,6 +171,9 @@ func genTier(a hx.Args, rng *hx.Rng, res *hx.Result, cc *hx.Cases, corpus [][]by
 			cc.Add(fmt.Sprintf("CEncG \"eth_tx.txdata\" (%s) (Some %s)", txValue(tx), hx.CoqHex(enc)), map[string]string{"type": "eth_tx.Transaction", "impl": hex.EncodeToString(enc)})
 		}
 		txIn = append(txIn, enc)
+		if i%3 == 0 {
+			txIn = append(txIn, badHeaderVariants(enc)...)
+		}
 		m := append([]byte{}, enc...)
 		m[rng.Intn(len(m))] = []byte{0x00, 0x80, 0xc0, 0x81, 0x01, 0xff, 0x94, 0x93}[rng.Intn(8)]
 		txIn = append(txIn, m, enc[:rng.Intn(len(enc))])
